@@ -27,6 +27,7 @@ ENGINES["vecsim"] = {
     "sources": LIB + [("nosan", "sim/sched.cpp"), ("nosan", "sim/simalloc.cpp"),
                       ("harness", "engines/vecsim/vecsim.cpp"), ("harness", "engines/vecsim/vs_ops1.cpp"), ("harness", "engines/vecsim/vs_ops2.cpp")]
                + [("harness", "engines/vecsim/stmt.cpp", ["-DSTMT_KIND=%d" % k]) for k in range(12)],
+    "ldflags": ["-Wl,--wrap=malloc,--wrap=calloc,--wrap=realloc,--wrap=free"],
 }
 
 WRAP_MALLOC = ["-Wl,--wrap=malloc,--wrap=calloc,--wrap=realloc,--wrap=free"]
